@@ -436,6 +436,9 @@ def surface_fallback(P, rep, rule="G3.surface"):
         calls = [x for x in F.walk(body) if x.get("k") in ("CallExpr", "CXXMemberCallExpr") and P.d(x.get("callee")).get("n") == "in_triangle"]
         pts = {norm.render(P, c["c"][3 if c["k"] == "CallExpr" else 3]) for c in calls}
         rets = [x for x in F.walk(body) if x.get("k") == "ReturnStmt"]
+        if not calls:
+            rep.unknown(rule, "Surface::local_value: the full scan does not call in_triangle directly (restructured?)")
+            return
         if not ({"check_point", "other_point"} <= pts and len(rets) >= 2):
             ok = False
             why = "the full scan tests %s (expected the point and its alias, each returning on success)" % sorted(pts)
